@@ -31,11 +31,11 @@ Section Preserve.
   Proof. intros H. unfold share_instance. destruct (ds_life d); auto. Qed.
   Lemma P_share_all l : forall p h i, P p -> P (fold_left (fun p a => share_instance p h a i) l p).
   Proof. induction l as [|a l IH]; intros p h i H; cbn [fold_left]; auto using P_share_instance. Qed.
-  Lemma P_fan_out outs : forall p h r inv p', P p -> fan_out p h r inv outs = inl p' -> P p'.
+  Lemma P_fan_out ks : forall p h d inv, P p -> P (fan_out p h d inv ks).
   Proof.
-    induction outs as [|[[k t] ky] rest IH]; intros p h r inv p' H; cbn [fan_out].
-    - intros E; inversion E; subst; exact H.
-    - destruct (find_service (p_descs p) t ky); [|discriminate]. apply IH. apply P_set_instance. exact H.
+    induction ks as [|k rest IH]; intros p h d inv H; cbn [fan_out]; [exact H|].
+    destruct (output_desc (p_descs p) d k); [apply IH; apply P_set_instance; exact H|].
+    apply IH. unfold drop_output. destruct (ds_life d); auto.
   Qed.
 
   Definition Prs (rs : rstate) : Prop := P (rs_p rs).
@@ -88,16 +88,14 @@ Section Preserve.
         destruct rets as [|t0 [|t1 ts]]; cbn [fst]; unfold Prs, with_p, log; cbn [rs_p];
         [ apply P_set_instance; exact H1
         | apply P_share_all; apply P_set_instance; exact H1
-        | destruct (fan_out _ _ _ _ _) eqn:Hfo; cbn [fst rs_p]; [|exact H1];
-          eapply P_fan_out; [|exact Hfo]; exact H1 ]).
+        | apply P_fan_out; exact H1 ]).
       - destruct (reg_params (ds_reg d)) as [inobj ps0].
         pose proof (args_loop_P ps0 rs h inobj [] H) as H1.
         destruct (args_loop recd rs h inobj ps0 []) as [rs1 [args|e]]; cbn [fst] in *; [|exact H1].
         destruct (cancels (ds_reg d) (get_inv (rs_invs rs1) (r_id (ds_reg d))));
         (destruct (effective_outcome (ds_reg d) (get_inv (rs_invs rs1) (r_id (ds_reg d)))); cbn [fst]; try exact H1;
         unfold Prs, with_p, log; cbn [rs_p];
-        destruct (fan_out _ _ _ _ _) eqn:Hfo; cbn [fst rs_p]; [|exact H1];
-        eapply P_fan_out; [|exact Hfo]; exact H1).
+        apply P_fan_out; exact H1).
     Qed.
   End WithRec.
 
